@@ -4,6 +4,7 @@ import (
 	"bufio"
 	"bytes"
 	"crypto/sha256"
+	"crypto/tls"
 	"encoding/hex"
 	"errors"
 	"fmt"
@@ -22,6 +23,7 @@ import (
 	"github.com/fabiolb/fabio/logger"
 	"github.com/fabiolb/fabio/proxy"
 	"github.com/fabiolb/fabio/route"
+	"github.com/fabiolb/fabio/transport"
 	"github.com/go-kit/kit/metrics/discard"
 )
 
@@ -199,6 +201,13 @@ func getEnv() *c07env {
 
 var globCache = route.NewGlobCache(100)
 
+// the transports main.newHTTPProxy gives the proxy (fact main_wiring), built once so that connections to the
+// upstream are reused across cases
+var (
+	upTransport       = transport.NewTransport(nil)
+	insecureTransport = transport.NewTransport(&tls.Config{InsecureSkipVerify: true})
+)
+
 // pcfg is the part of the proxy's configuration — other than the route options — that puts code of fabio on the
 // path of every request: the span-name template (trace.CreateSpan runs it before the lookup, whether or not a
 // tracer is installed), the request-id header, the access logger, the metrics hooks, the flush intervals.
@@ -265,8 +274,9 @@ func (e *c07env) installCfg(cfg config.Proxy, pc pcfg, routes string, rep *upRep
 	}
 	p := &proxy.HTTPProxy{
 		Config:      cfg,
-		Transport:   http.DefaultTransport,
-		AuthSchemes: schemes,
+		Transport:         upTransport,
+		InsecureTransport: insecureTransport,
+		AuthSchemes:       schemes,
 		Lookup: func(r *http.Request) *route.Target {
 			return tbl.Lookup(r, "", route.Picker["rr"], route.Matcher["prefix"], globCache, false)
 		},
